@@ -63,7 +63,7 @@ def collapse : List String → List String
 
 def shapeOf (steps : List Step) : String := ",".intercalate (collapse (steps.map stepShape))
 
-def rtOut (spec : List Item) (counters : Option (Nat × Nat × Nat) := none) : String :=
+def rtOut (spec : List Item) (counters : Option (Nat × Nat × Nat) := none) (viaGet : Bool := false) : String :=
   match buildItems [] spec emptyFav with
   | .dup => "api-dup"
   | .reject => "api-reject"
@@ -73,7 +73,9 @@ def rtOut (spec : List Item) (counters : Option (Nat × Nat × Nat) := none) : S
       | none => f0
     match saveBytes f with
     | .error e => toString e
-    | .ok bytes =>
+    | .ok bytes0 =>
+      -- wgt: the bytes travel through GetFavorites (retrieveTS 0, any positive mtime) before they are loaded
+      let bytes := if viaGet then ((getFavorites (some (bytes0, 1)) 0).1).getD [] else bytes0
       match load bytes with
       | .error e => toString e
       | .ok none => s!"err {toHex bytes} -"
@@ -127,6 +129,17 @@ def stepC19 (_ : Unit) (ws : List String) : Unit × String :=
         | some k, some nb =>
           if !isSyscall sc || k = 0 || nb.isEmpty || (old ≠ "none" && (parseHex old).isNone) then "bad-op"
           else "old-or-new"
+        | _, _ => "bad-op"
+    | "wgt" :: ts => match parseTree ts with
+        | some spec => rtOut spec none true
+        | none => "bad-op"
+    | ["wg", ts, h] =>
+        let content : Option (Option (List Nat)) := if h = "none" then some none else (parseHex h).map some
+        match natTok ts 2147483647, content with
+        | some ts, some c =>
+            match getFavorites (c.map fun bs => (bs, 1000000100)) ts with
+            | (none, m) => s!"nil {m}"
+            | (some bs, m) => s!"{toHex bs} {m}"
         | _, _ => "bad-op"
     | ["conc", nw, ms, sd] =>
         match natTok nw 64, natTok ms 60000, natTok sd 4294967295 with
